@@ -53,7 +53,7 @@ def _run_batch(conds: List[Cond], exclusions: List[str]) -> List[dict]:
     c = conds[0]
     env = dict(os.environ)
     env.update(c.env)
-    env["PYTHONPATH"] = ROOT
+    env["PYTHONPATH"] = (os.environ["VF_REPO"] + ":" if os.environ.get("VF_REPO") else "") + ROOT
     env["PYTHONHASHSEED"] = env.get("PYTHONHASHSEED", "0")
     cases = ",".join(str(x.case) for x in conds)
     tmo = max(x.timeout for x in conds)
@@ -116,7 +116,7 @@ def write_replay(prop: str, c: Cond, cex: dict) -> str:
 def run_replay(path: str) -> dict:
     """re-run the counterexample on the real code in a CrossHair-free interpreter"""
     env = dict(os.environ)
-    env["PYTHONPATH"] = ROOT
+    env["PYTHONPATH"] = (os.environ["VF_REPO"] + ":" if os.environ.get("VF_REPO") else "") + ROOT
     env["VF_MODE"] = "concrete"
     try:
         p = subprocess.run([PLAIN_PY, "-W", "ignore", "-m", "vf.replay", path], env=env, cwd=ROOT,
@@ -159,6 +159,7 @@ def decide_condition(prop: str, c: Cond, findings: List[dict], log, first: Optio
     exclusions: List[str] = []
     known_hits = []
     rounds = []
+    nonrepro = 0
     while True:
         if first is not None:
             r, first = first, None
@@ -192,6 +193,14 @@ def decide_condition(prop: str, c: Cond, findings: List[dict], log, first: Optio
                         continue  # explore the rest of the space without the known region
                     verdict = ("violation", path)
                 elif rep.get("verdict") == "holds":
+                    # a counterexample of the real-arithmetic float model that sits exactly on an IEEE rounding boundary
+                    # does not reproduce; ask the solver for another one away from these float values (bounded retries)
+                    near = [f"abs({k} - ({v!r})) <= {max(1e-3, 1e-3 * abs(v))!r}" for k, v in cex["args"].items()
+                            if isinstance(v, float) and v == v and abs(v) != float("inf") and v != 0.0]
+                    if near and nonrepro < 4:
+                        nonrepro += 1
+                        exclusions.extend(near)
+                        continue
                     verdict = ("inconclusive", f"counterexample did not reproduce in replay ({path})")
                 else:
                     verdict = ("inconclusive", f"replay error ({path}): {rep.get('detail', '')[:300]}")
@@ -226,6 +235,7 @@ def decide_condition(prop: str, c: Cond, findings: List[dict], log, first: Optio
         "functions": sorted({f for x in rounds for f in x["functions"]}),
         "known_hits": known_hits,
         "rounds": len(rounds),
+        "nonreproducing_cex_retries": nonrepro,
         "unexplored": sum(x.get("unexplored", 0) for x in rounds),
         "smt": rounds[-1].get("smt"),
     }
